@@ -949,6 +949,22 @@ def run_gc_fasta(case, ctx, tmp):
         ctx.trace()
         for (c, s, e), g, r in zip(coords, list(got[0]), list(got[1])):
             judge_gc_pair(ctx, (g, r), seqs[c][s:e], "get_fasta_stats/two-records", {"record": c, "start": s, "end": e, "width": width}, trace=False)
+    # nested bins: an earlier bin reaches past the end of the table's last bin on that chromosome
+    for name, seq in recs:
+        n = len(seq)
+        for table in ([(0, n), (5, 18)], [(0, 10), (2, n), (3, 5)], [(1, n - 1), (1, 2)]):
+            arr = CNA.from_rows([(name, s, e, "g", 0.0) for s, e in table], columns=["chromosome", "start", "end", "gene", "log2"])
+            arr.sort()
+            coords = [(str(c), int(s), int(e)) for c, s, e in zip(arr.data["chromosome"], arr.data["start"], arr.data["end"])]
+            got = ctx.call(R.get_fasta_stats, arr, fa)
+            ctx.state(("gc-fasta-nested", case["content"], width, name, table), nontrivial=True)
+            ctx.stratum("gc-fasta: nested bins (the last bin ends before an earlier one)")
+            if isinstance(got, Exc):
+                ctx.violation("gc and rmask are returned for every bin", f"get_fasta_stats/raises/{got.key}/nested-bins", observed=got, sub={"record": name, "bins": table})
+                continue
+            ctx.trace()
+            for (c, s, e), g, r in zip(coords, list(got[0]), list(got[1])):
+                judge_gc_pair(ctx, (g, r), seq[s:e], "get_fasta_stats/nested-bins", {"record": c, "start": s, "end": e, "width": width, "bins": table}, trace=False)
     ctx.sample("gc-fasta", {"case": case, "text": text})
 
 
